@@ -164,6 +164,11 @@ func main() {
 	case "trans-map":
 		enc, done := openOut(*out)
 		defer done()
+		if *stores != "" {
+			senc, sdone := openOut(*stores)
+			defer sdone()
+			storesOut = senc
+		}
 		f, err := os.Open(*in)
 		if err != nil {
 			fmt.Fprintln(os.Stderr, err)
